@@ -59,7 +59,7 @@ class CallGraph:
                         if ty.startswith("%struct."):
                             self.slot_targets.setdefault(("field", ty, path), set()).add(f)
                         else:
-                            self.slot_targets.setdefault(("global", g["name"]), set()).add(f)
+                            self.slot_targets.setdefault(("global", self.gkey(m.unit, g["name"])), set()).add(f)
                         # a pointer global initialised with &struct: handled below
         # (b) stores of function symbols into globals / fields
         for f in prog.functions():
@@ -74,7 +74,7 @@ class CallGraph:
                     if tgt is None:
                         continue
                     if a[0] == "g":
-                        self.slot_targets.setdefault(("global", a[1]), set()).add(tgt)
+                        self.slot_targets.setdefault(("global", self.gkey(f.unit, a[1])), set()).add(tgt)
                     elif a[0] == "v":
                         d = f.insts[a[1]]
                         if d["op"] == "getelementptr":
@@ -110,7 +110,7 @@ class CallGraph:
             if d["op"] == "load":
                 a = d["ops"][0]
                 if a[0] == "g":
-                    t = self.slot_targets.get(("global", a[1]))
+                    t = self.slot_targets.get(("global", self.gkey(fn.unit, a[1])))
                     return (sorted(t, key=lambda f: str(f.key)) if t else [], bool(t))
                 if a[0] == "v":
                     g = fn.insts[a[1]]
@@ -251,6 +251,13 @@ class CallGraph:
             k = parent.get(k)
         return list(reversed(c))
 
+    def gkey(self, unit, name):
+        """identity of a global: internal-linkage globals are per unit"""
+        g = self.prog.modules[unit].globals.get(name)
+        if g is not None and not g["decl"] and g["internal"]:
+            return "%s::%s" % (unit, name)
+        return name
+
     # ---- effect summaries ------------------------------------------------------------
     def _compute_effects(self):
         """writes_params[f] = set of parameter indices whose pointee f may write (transitively);
@@ -258,6 +265,7 @@ class CallGraph:
         prog = self.prog
         local_wp = {}
         local_wg = {}
+        self._direct_g = {}
         passes = {}   # f.key -> [(callee targets, {callee param idx -> set(caller roots)})]
         for f in prog.functions():
             wp, wg = set(), set()
@@ -275,7 +283,7 @@ class CallGraph:
                 if o[0] == "a":
                     res = {("a", o[1])}
                 elif o[0] == "g":
-                    res = {("g", o[1])}
+                    res = {("g", self.gkey(f.unit, o[1]))}
                 elif o[0] == "ce":
                     for x in o[2][:1]:
                         res |= rootof(x, depth + 1)
@@ -373,6 +381,7 @@ class CallGraph:
             local_wp[f.key] = wp
             local_wg[f.key] = wg
             passes[f.key] = ps
+            self._direct_g[f.key] = set(g for g in wg if g != "*")
         changed = True
         while changed:
             changed = False
@@ -394,6 +403,19 @@ class CallGraph:
                 if (len(wp), len(wg)) != n0:
                     changed = True
         self._wp, self._wg = local_wp, local_wg
+        # globals written *at* each function: direct stores/ext writes plus globals handed to a callee
+        # at a position the callee writes through
+        site_g = {}
+        for k, ps in passes.items():
+            sg = set(self._direct_g.get(k, ()))
+            for ck, argroots in ps:
+                for i in local_wp.get(ck, ()):
+                    if i < len(argroots):
+                        for rr in argroots[i]:
+                            if rr[0] == "g":
+                                sg.add(rr[1])
+            site_g[k] = sg
+        self._site_g = site_g
         self._effects_done = True
 
     def writes_params(self, fn):
@@ -410,6 +432,32 @@ class CallGraph:
         if getattr(self, "_ranges", None) is None:
             self._ranges = ReadRanges(self)
         return self._ranges
+
+    def globals_written_at(self, fn):
+        """globals stored to in fn itself (incl. being passed to a callee's written parameter)"""
+        if not self._effects_done:
+            self._compute_effects()
+        return self._site_g.get(fn.key, set())
+
+    def globals_written_from(self, fn, cut=()):
+        """{global: witness chain} written by fn or anything it may call, not following calls into
+        the functions in `cut`"""
+        if not self._effects_done:
+            self._compute_effects()
+        cut = set(cut)
+        out = {}
+        parent = {fn.key: None}
+        work = [fn.key]
+        while work:
+            k = work.pop()
+            for g in self._site_g.get(k, ()):
+                if g not in out:
+                    out[g] = self.chain(parent, k)
+            for e in self.edges.get(k, ()):
+                if e not in parent and e not in cut:
+                    parent[e] = k
+                    work.append(e)
+        return out
 
     def writes_unknown(self, fn):
         return "*" in self.writes_globals(fn)
